@@ -240,6 +240,11 @@ func (r *Run) Finish() int {
 		fmt.Printf("VIOLATION property=%s replay=%s\n", r.Property, path)
 	}
 
+	if os.Getenv("POLYCHECK_DUMP") != "" {
+		for _, o := range r.Obs {
+			fmt.Printf("DUMP %s %s %s %s ctl=%v %s %v\n", o.Rule, o.Verdict, o.Construct, o.Pos, o.Control, o.Msg, o.Facts)
+		}
+	}
 	// evidence
 	total := 0
 	held := 0
